@@ -15,7 +15,8 @@ LEVEL = "exploration"
 BATCH = 400
 BUDGET = {"quick": 25.0, "thorough": 600.0}
 RULE = (
-    "one evaluation = one seeded history of 1-40 typed writes (sanitisation off) read back with the matching "
+    "one evaluation = one seeded history of 1-40 typed writes (sanitisation off; some refused, the output taken "
+    "by the receiver at some points in between) read back with the matching "
     "get_* calls; distinct = distinct (operation-kind sequence truncated to 3, string-class mix) shapes; "
     "non-trivial = at least two writes"
 )
@@ -28,7 +29,7 @@ COMPONENTS = {
     "real": ["eolib.data.EoWriter", "eolib.data.EoReader", "number and string codecs"],
     "stub_or_harness": ["history generator", "expected-value computation"],
 }
-PROBES = ["refused_write_in_history", "very_long_padding", "same_string_written_again", "perfect_fit_padded", "empty_string", "non_cp1252_character", "int_at_max", "trailing_unbounded_string",
+PROBES = ["output_taken_mid_history", "refused_write_in_history", "very_long_padding", "same_string_written_again", "perfect_fit_padded", "empty_string", "non_cp1252_character", "int_at_max", "trailing_unbounded_string",
           "y_diaeresis_in_unpadded_string", "empty_padded_string"]
 
 INT_KINDS = ["char", "short", "three", "int"]
@@ -48,6 +49,10 @@ def generate(streams, tier):
         if rng.random() < 0.04:
             # a write that must be refused (and leave nothing behind); the history goes on afterwards
             ops.append(["refused", pool.get(vr, min_len=2), rng.choice(["fixed", "fixed_encoded", "padded"])])
+            continue
+        if rng.random() < 0.05:
+            # the receiver takes what has been written so far (incremental delivery); the writer is used further
+            ops.append(["flush", rng.choice(["keep", "reader", "mutate"])])
             continue
         if r < 0.08:
             ops.append(["byte", vr.randrange(256)])
@@ -90,8 +95,26 @@ def execute(plan, env):
 
     w = EoWriter()
     declared = 0
+    taken = []          # (the object handed out, its content when it was handed out, a reader kept open on it or None)
     for step, o in enumerate(ops):
         k = o[0]
+        if k == "flush":
+            try:
+                snap = w.to_bytearray()
+            except Exception as e:
+                return fail("write-raised", k, f"step {step}: to_bytearray raised {type(e).__name__}: {e}", step)
+            if len(snap) != declared:
+                return fail("output-length", "flush", f"step {step}: output has {len(snap)} bytes, declared sizes sum to {declared}", step)
+            keep = bytes(snap)
+            if o[1] == "mutate":
+                snap.extend(b"\x01\x02")      # the receiver owns what it was given
+                if keep:
+                    snap[0] ^= 0x55
+                taken.append((None, keep, None))
+            else:
+                taken.append((snap, keep, EoReader(snap) if o[1] == "reader" else None))
+            res.count("probe.output_taken_mid_history")
+            continue
         if k == "refused":
             try:
                 if o[2] == "fixed":
@@ -143,10 +166,17 @@ def execute(plan, env):
     tr.ev("written", bytes(out).hex())
     if len(out) != declared:
         return fail("output-length", "total", f"output has {len(out)} bytes, declared sizes sum to {declared}", len(ops))
+    for snap, keep, rd in taken:
+        if snap is not None and bytes(snap) != keep:
+            return fail("value", "earlier-output", f"output taken earlier ({keep.hex()[:60]}) changed to {bytes(snap).hex()[:60]} "
+                        "while the writer was used further", len(ops))
+        if bytes(out[:len(keep)]) != keep:
+            return fail("value", "earlier-output", f"the final output does not start with the output taken earlier "
+                        f"({keep.hex()[:60]} vs {bytes(out).hex()[:60]})", len(ops))
     r = EoReader(bytes(out))
     for step, o in enumerate(ops):
         k = o[0]
-        if k == "refused":
+        if k in ("refused", "flush"):
             continue
         try:
             if k == "byte":
@@ -171,10 +201,10 @@ def execute(plan, env):
                         f"item {step} written as {o!r} read back as {got!r}, expected {want!r}", step)
     if r.remaining != 0 or r.position != len(out):
         return fail("not-consumed", "end", f"after reading everything remaining={r.remaining} position={r.position} len={len(out)}", len(ops))
-    kinds = [o[0] + ("P" if len(o) > 3 and o[3] else "") for o in ops]
+    kinds = [o[0] + ("P" if len(o) > 3 and o[3] else "") for o in ops if o[0] != "flush"] + (["flush"] if taken else [])
     if len(ops) >= 2:
         classes = sorted({("y" if "ÿ" in o[1] else "") + ("u" if image(o[1]) != o[1] else "") + ("e" if not o[1] else "")
-                          for o in ops if isinstance(o[1], str) and o[0] != "refused"})
+                          for o in ops if isinstance(o[1], str) and o[0] not in ("refused", "flush")})
         res.keys.add(",".join(kinds[:3]) + "|" + "/".join(classes))
     res.digest = tr.digest()
     res.steps = tr.steps
